@@ -268,11 +268,56 @@ func runC01(c *Ctx) {
 			if ts := ThroughReturns(r.Results[0]); len(ts) == 1 {
 				cl, _ = CallOfValue(ts[0])
 			}
-			if cl == nil || !MatchCC(&cl.Call, Spec{"time", "Time", "Add"}) || !DerivesOnly(cl.Call.Args[0], false, IsFieldLoadPred("doAtSchedule", "start")) {
+			var off ssa.Value
+			if cl != nil && MatchCC(&cl.Call, Spec{"time", "Time", "Add"}) && DerivesOnly(cl.Call.Args[0], false, IsFieldLoadPred("doAtSchedule", "start")) {
+				off = cl.Call.Args[1]
+			} else if fv, _ := FieldOf(Strip(r.Results[0])); fv != nil && !okv {
+				// the finish time kept in a field: every store to it is <what start is set to>.Add(duration), made where
+				// start is stored (or the zero time plus duration in the constructor, matching the zero start)
+				stores := P.FieldStores(fv)
+				all := len(stores) > 0
+				for _, sv := range stores {
+					ac, _ := CallOfValue(Strip(sv))
+					if ac == nil || !MatchCC(&ac.Call, Spec{"time", "Time", "Add"}) {
+						all = false
+						continue
+					}
+					durOK := DerivesOnly(ac.Call.Args[1], false, func(v ssa.Value) bool {
+						if IsFieldLoad(v, "doAtSchedule", "duration") {
+							return true
+						}
+						pr, isP := v.(*ssa.Parameter)
+						return isP && pr.Name() == "duration"
+					})
+					startOK := false
+					fn2 := ac.Parent()
+					EachInstr(fn2, func(in ssa.Instruction) {
+						if sv2, ok := StoreToField(in, "doAtSchedule", "start"); ok && (sameRoots(sv2, ac.Call.Args[0]) || Strip(sv2) == Strip(ac.Call.Args[0])) {
+							startOK = true
+						}
+					})
+					if IsFieldLoad(ac.Call.Args[0], "doAtSchedule", "start") {
+						startOK = true
+					}
+					if _, isZero := Strip(ac.Call.Args[0]).(*ssa.Const); isZero && fn2.Parent() == nil && len(FieldStoresIn([]*ssa.Function{fn2}, "doAtSchedule", "start")) == 0 {
+						startOK = true // constructor: start is still the zero time
+					}
+					if !durOK || !startOK {
+						all = false
+					}
+				}
+				if all {
+					for _, sv := range stores {
+						if ac, _ := CallOfValue(Strip(sv)); ac != nil && IsFieldLoad(ac.Call.Args[1], "doAtSchedule", "duration") {
+							off = ac.Call.Args[1]
+						}
+					}
+				}
+			}
+			if off == nil {
 				c.Bad("O1.3", fk(nx)+":time-is-start-plus-offset", r.Pos(), "returned time must be start.Add(...)")
 				continue
 			}
-			off := cl.Call.Args[1]
 			// facts: index >= n ?
 			exhausted, within := false, false
 			for _, f := range CmpFactsAt(r) {
